@@ -147,6 +147,18 @@ func c11Gen(st vState) []vOp {
 	return ops
 }
 
+// c11GenOne is the same alphabet restricted to snap A: the one-snap family is explored deeper than the
+// two-snap product (e.g. install, refresh, revert, disable, remove the current revision needs 5 operations).
+func c11GenOne(st vState) []vOp {
+	var ops []vOp
+	for _, op := range c11Gen(st) {
+		if op.S == "A" {
+			ops = append(ops, op)
+		}
+	}
+	return ops
+}
+
 type c11Runner struct {
 	r     *eng.Run
 	c     *C
@@ -342,8 +354,9 @@ func (s *verifC11Suite) TestVerifC11(c *C) {
 	cfg := vCfg{Retain: "3"}
 	depth := r.Pick(4, 6)
 	budget := r.Pick(1, 2)
+	oneDepth := r.Pick(5, 7) // failure-free sequences on one snap only
 	if v := os.Getenv("VERIF_C11_DEPTH"); v != "" {
-		fmt.Sscanf(v, "%d,%d", &depth, &budget)
+		fmt.Sscanf(v, "%d,%d,%d", &depth, &budget, &oneDepth)
 	}
 	cr := &c11Runner{r: r, c: c, depth: depth, seen: map[string]bool{}, known: map[string]bool{}}
 
@@ -384,6 +397,21 @@ func (s *verifC11Suite) TestVerifC11(c *C) {
 		}
 		var trans int
 		states, trans = vBFS("C11", c, []vPath{{Cfg: cfg}}, c11Gen, depth, 16)
+		seenKeys := map[string]bool{}
+		for _, s := range states {
+			seenKeys[s.Key] = true
+		}
+		one, t1 := vBFS("C11", c, []vPath{{Cfg: cfg}}, c11GenOne, oneDepth, 16)
+		trans += t1
+		oneNew := 0
+		for _, s := range one {
+			if !seenKeys[s.Key] {
+				seenKeys[s.Key] = true
+				s.Tag = "one-snap"
+				states = append(states, s)
+				oneNew++
+			}
+		}
 		os.MkdirAll(filepath.Dir(statesFile), 0755)
 		if err := os.WriteFile(statesFile, []byte(eng.JSON(states)), 0644); err != nil {
 			eng.HarnessError("cannot write %s: %v", statesFile, err)
@@ -397,7 +425,7 @@ func (s *verifC11Suite) TestVerifC11(c *C) {
 		for _, s := range states {
 			byDepth[fmt.Sprint(s.Depth)]++
 		}
-		r.Info("bounds", map[string]interface{}{"max_operations": depth, "failure_budget": budget, "snaps": 2, "refresh_retain": 3, "states_by_depth": byDepth, "generation_seconds": int(time.Since(t0).Seconds())})
+		r.Info("bounds", map[string]interface{}{"max_operations": depth, "max_operations_one_snap_failure_free": oneDepth, "one_snap_states_beyond_two_snap_bound": oneNew, "failure_budget": budget, "snaps": 2, "refresh_retain": 3, "states_by_depth": byDepth, "generation_seconds": int(time.Since(t0).Seconds())})
 		fmt.Printf("C11: %d failure-free states %v in %v\n", len(states), byDepth, time.Since(t0))
 		if len(states) > 3 {
 			r.Sample(map[string]interface{}{"state": states[len(states)/2].Key, "path": states[len(states)/2].Path})
